@@ -275,11 +275,16 @@ func (s *sdRun) applyMgmt(op SDOp) error {
 			}
 			s.mg.stale[op.DS] = append(s.mg.stale[op.DS], ds)
 		}
+		var open []*c07Paged
+		if s.ctx.Has("C07") {
+			open = s.c07OpenPaged(op.DS)
+		}
 		if err := s.core.Dsm.DeleteDataset(op.DS); err != nil {
 			return err
 		}
 		s.m.Delete(op.DS)
 		delete(s.rec, op.DS)
+		s.c07ContinuePaged(op.DS, open)
 	case "rename":
 		if _, err := s.core.Dsm.UpdateDataset(op.DS, &server.UpdateDatasetConfig{ID: op.To}); err != nil {
 			return err
@@ -605,6 +610,94 @@ func (s *sdRun) checkC19() {
 	for n := range liveMeta {
 		if n != "core.Dataset" && s.m.Live(n) == nil && !s.mg.everNames[n] {
 			s.viol("C19", "unknown-meta-entity", fmt.Sprintf("live meta-entity for unknown dataset %s", n), nil, nil)
+		}
+	}
+}
+
+// c07Paged is a relation query opened with limit 1 before a dataset is deleted and continued afterwards. Its
+// continuation carries the internal ids of the datasets in scope as resolved when it was opened.
+type c07Paged struct {
+	q       string
+	start   string
+	inv     bool
+	rest    []string // the datasets in scope other than the one being deleted
+	cont    []*server.RelatedFrom
+	onlyInD map[model.Pair]bool // pairs asserted by the dataset about to be deleted and by no other dataset in scope
+}
+
+func (s *sdRun) c07OpenPaged(d string) []*c07Paged {
+	var others []string
+	for _, n := range s.m.LiveNames() {
+		if n != d {
+			others = append(others, n)
+		}
+	}
+	scopes := [][]string{{d}, nil}
+	if len(others) > 0 {
+		scopes = append(scopes, []string{d, others[0]})
+	}
+	var open []*c07Paged
+	for _, start := range s.vocab.IDs {
+		for _, inv := range []bool{false, true} {
+			for _, sc := range scopes {
+				inD := s.m.Related(start, "*", inv, []string{d}, -1)
+				if len(inD) == 0 {
+					continue
+				}
+				rest := others
+				if sc != nil {
+					rest = sc[1:]
+				}
+				if len(rest) > 0 {
+					for p := range s.m.Related(start, "*", inv, rest, -1) {
+						delete(inD, p)
+					}
+				}
+				if len(inD) == 0 {
+					continue
+				}
+				q, err := s.core.Store.GetManyRelatedEntitiesBatch([]string{start}, "*", inv, sc, 1, true)
+				s.nQueries++
+				if err != nil || len(q.Cont) == 0 {
+					continue
+				}
+				open = append(open, &c07Paged{q: fmt.Sprintf("start=%s pred=* inverse=%v scope=%v limit=1", start, inv, sc), start: start, inv: inv, rest: rest, cont: q.Cont, onlyInD: inD})
+			}
+		}
+	}
+	return open
+}
+
+// c07ContinuePaged: the pages served after the delete must not carry a relation that only the deleted dataset asserted.
+func (s *sdRun) c07ContinuePaged(d string, open []*c07Paged) {
+	for _, p := range open {
+		s.ctx.Out.Stat("c07_paged_queries_continued_across_delete", 1)
+		for page := 0; page < 200 && len(p.cont) > 0; page++ {
+			q, err := s.core.Store.GetManyRelatedEntitiesAtTime(p.cont, 1, true)
+			s.nQueries++
+			if err != nil {
+				break
+			}
+			for _, rel := range q.Relations {
+				other := ""
+				if rel.RelatedEntity != nil {
+					other = obsExpand(s.core.Store, rel.RelatedEntity.ID)
+				}
+				pair := model.Pair{Pred: obsExpand(s.core.Store, rel.PredicateURI), Other: other}
+				s.ctx.Out.Stat("c07_paged_relations_served_after_delete", 1)
+				if p.onlyInD[pair] && p.inv && len(p.rest) > 0 {
+					// a stale index key of a surviving dataset (open C03 finding), not the deleted dataset's data?
+					if c := s.m.ClassifyIncoming(p.start, "*", p.rest, -1, true, []model.Pair{pair}); c != "" {
+						s.viol("C03", c, fmt.Sprintf("%s continued across the delete of %s: %v is explained by the incoming-scan finding on the surviving datasets", p.q, d, pair), nil, pair.String())
+						continue
+					}
+				}
+				if p.onlyInD[pair] {
+					s.viol("C07", "paged-query-continued-across-delete", fmt.Sprintf("%s was opened before dataset %s was deleted; a page served after the delete carries %v, which only the deleted dataset asserted", p.q, d, pair), nil, pair.String())
+					return
+				}
+			}
+			p.cont = q.Cont
 		}
 	}
 }
